@@ -66,7 +66,7 @@ PROPS = {
                 dict(module="MC_SM2Sig", cfg="MC_SM2Sig_q_none", tier="quick", about="toy curve F_11 (n = 7): every d, k, digest: Sign in range and verifies, code-shaped signer = standard; every (r', s') of the byte range: VerifyImpl <=> Valid"),
                 dict(module="MC_SM2Sig", cfg="MC_SM2Sig_none", tier="thorough", timeout=1500, about="same on the F_23 curve (n = 29), byte range 0..31: 268 801 states")],
         stages=[dict(suite="sm2sig", trace="TraceSM2", plan=dict(module="PlanSM2Sig", cfg_quick="PlanSM2Sig_q", cfg_thorough="PlanSM2Sig_t"),
-                     required_classes={"both": ["sm2.sign/fixed-nonce", "sm2.sign/free-nonce", "sm2.verify/untouched"]})],
+                     required_classes={"both": ["sm2.sign/fixed-nonce", "sm2.sign/free-nonce", "sm2.verify/untouched", "sm2.sign_digest/retry.r=0", "sm2.sign_digest/retry.r+k=n", "sm2.sign_digest/retry.s=0"]})],
         assumptions=["SM2.tla transcribes GB/T 32918.2 (anchored by the GM/T 0003.5 Annex A signature as ASSUME)", "BigNat Java override (cross-checked by MC_BigNat)"],
     ),
     "C04": dict(
@@ -84,7 +84,7 @@ PROPS = {
                 dict(module="MC_SM2Sig", cfg="MC_SM2Sig_q_inf", expect="violation", about="negative: the pinned commit's handling of [s]G + [t]P = O (x1 read as 0) must be refuted")],
         stages=[dict(suite="sm2ver", trace="TraceSM2", plan=dict(module="PlanSM2Sig", cfg_quick="PlanSM2Sig_q", cfg_thorough="PlanSM2Sig_t"),
                      required_classes={"both": ["sm2.verify/untouched", "sm2.verify/tampered64", "sm2.verify/len<64", "sm2.verify/len>64",
-                                                "sm2.verify_digest/digest.small-s", "sm2.verify_digest/digest.s+n", "sm2.verify_digest/digest.r+n", "sm2.verify_digest/digest.t=0", "sm2.verify_digest/digest.sum-is-infinity"]})],
+                                                "sm2.verify_digest/digest.small-s", "sm2.verify_digest/digest.s+n", "sm2.verify_digest/digest.r+n", "sm2.verify_digest/digest.t=0", "sm2.verify_digest/digest.sum-is-infinity", "sm2.verify_digest/digest.near-miss"]})],
         assumptions=["SM2.tla transcribes GB/T 32918.2", "BigNat Java override (cross-checked by MC_BigNat)"],
     ),
     "C05": dict(
@@ -93,7 +93,7 @@ PROPS = {
              "distinct = distinct (key, k, message, format); non-trivial = all",
         models=[dict(module="AnchorSM2", anchor=True, workers=1, about="SM2.tla reproduces the GM/T 0003.5 Annex values")],
         stages=[dict(suite="sm2enc", trace="TraceSM2", plan=dict(module="PlanSM2Enc", cfg_quick="PlanSM2Enc_q", cfg_thorough="PlanSM2Enc_t"),
-                     required_classes={"both": ["sm2.encrypt/c1c3c2.uncomp.klen%32=0", "sm2.encrypt/c1c2c3.comp.short", "sm2.decrypt/own-ciphertext", "sm2.decrypt/spec-made", "sm2.kdf/klen%32=0"]})],
+                     required_classes={"both": ["sm2.encrypt/c1c3c2.uncomp.klen%32=0", "sm2.encrypt/c1c2c3.comp.short", "sm2.decrypt/own-ciphertext", "sm2.decrypt/spec-made", "sm2.decrypt/weak-zero", "sm2.kdf/klen%32=0"]})],
         assumptions=["SM2.tla transcribes GB/T 32918.4 (anchored by the GM/T 0003.5 Annex ciphertext as ASSUME)"],
     ),
     "C06": dict(
@@ -189,7 +189,10 @@ PROPS = {
     "C10": dict(
         level="model_checking",
         rule="events = encrypt calls under the RNG hook, decrypt calls on library-made / spec-made ciphertexts and enumerated faults; distinct = distinct inputs; non-trivial = all",
-        models=[dict(module="AnchorSM9q", anchor=True, workers=1, tier="quick", about="SM9.tla reproduces the GM/T 0044.5 Annex extraction / signature / ciphertext values via the derived evaluator; G0 has order N"), dict(module="AnchorSM9", anchor=True, workers=1, tier="thorough", timeout=900, about="all GM/T 0044.5 Annex values incl. the definitional pairings, decryption and key exchange; G0Const = Pairing(P1,P2)")],
+        models=[dict(module="AnchorSM9q", anchor=True, workers=1, tier="quick", about="SM9.tla reproduces the GM/T 0044.5 Annex extraction / signature / ciphertext values via the derived evaluator; G0 has order N"), dict(module="AnchorSM9", anchor=True, workers=1, tier="thorough", timeout=900, about="all GM/T 0044.5 Annex values incl. the definitional pairings, decryption and key exchange; G0Const = Pairing(P1,P2)"),
+                dict(module="MC_SM9Proto", cfg="MC_SM9Proto_enc", about="exponent model Z_7: all ke, H1 tables, r, messages: round trip; every replaced C1 (any value or off-curve) / C2 / C3 is rejected"),
+                dict(module="MC_SM9Proto", cfg="MC_SM9Proto_enc_nomac", expect="violation", about="negative: decryption without the C3 comparison must be refuted"),
+                dict(module="MC_SM9Proto", cfg="MC_SM9Proto_enc_nocurve", expect="violation", about="negative: decryption without the on-curve check of C1 must be refuted")],
         stages=[dict(suite="sm9enc", trace="TraceSM9", plan=dict(module="PlanSM9", cfg_quick="PlanSM9_q", cfg_thorough="PlanSM9_t"), timeout=3400,
                      required_classes={"both": ["sm9.encrypt/encrypt.short", "sm9.encrypt/encrypt.len%32=0", "sm9.decrypt/decrypt.none", "sm9.decrypt/decrypt.spec-made", "sm9.decrypt/decrypt.flip-c2",
                                                 "sm9.decrypt/decrypt.flip-c1", "sm9.decrypt/decrypt.truncated", "sm9.decrypt/decrypt.c1-offcurve"]})],
@@ -198,7 +201,9 @@ PROPS = {
     "C17": dict(
         level="model_checking",
         rule="sessions = key exchange runs; every step judged from its logged inputs; distinct = distinct (master key, ids, klen, ephemerals, tamper); non-trivial = all",
-        models=[dict(module="AnchorSM9q", anchor=True, workers=1, tier="quick", about="SM9.tla reproduces the GM/T 0044.5 Annex extraction / signature / ciphertext values via the derived evaluator; G0 has order N"), dict(module="AnchorSM9", anchor=True, workers=1, tier="thorough", timeout=900, about="all GM/T 0044.5 Annex values incl. the definitional pairings, decryption and key exchange; G0Const = Pairing(P1,P2)")],
+        models=[dict(module="AnchorSM9q", anchor=True, workers=1, tier="quick", about="SM9.tla reproduces the GM/T 0044.5 Annex extraction / signature / ciphertext values via the derived evaluator; G0 has order N"), dict(module="AnchorSM9", anchor=True, workers=1, tier="thorough", timeout=900, about="all GM/T 0044.5 Annex values incl. the definitional pairings, decryption and key exchange; G0Const = Pairing(P1,P2)"),
+                dict(module="MC_SM9Proto", cfg="MC_SM9Proto_kex", about="exponent model Z_7: all ke, H1 tables, rA, rB and every replacement of R_A / R_B: untampered => same key; replaced R => keys differ; off-curve R => receiver fails (702 000 states)"),
+                dict(module="MC_SM9Proto", cfg="MC_SM9Proto_kex_nocurve", expect="violation", about="negative: a receiver that skips the on-curve check must be refuted")],
         stages=[dict(suite="sm9kex", trace="TraceSM9", timeout=3400,
                      required_classes={"both": ["sm9kx.1a/kx.1a", "sm9kx.1b/kx.1b.none", "sm9kx.2a/kx.2a.none", "sm9kx.1b/kx.1b.offcurve", "sm9kx.2a/kx.2a.offcurve", "sm9kx.1b/kx.1b.bitflip"]})],
         assumptions=["SM9.tla transcribes GM/T 0044.3 (Annex key exchange value as ASSUME)"],
